@@ -305,6 +305,19 @@ def adjust_intervals(
     new_labels : list
         List of labels for ``new_labels``
     """
+    # Remove any intervals lying completely outside the specified range
+    # (including those which only touch it at t_min or t_max)
+    if intervals.size > 0:
+        keep = np.ones(len(intervals), dtype=bool)
+        if t_min is not None:
+            keep &= intervals[:, 1] > t_min
+        if t_max is not None:
+            keep &= intervals[:, 0] < t_max
+        if not keep.all():
+            intervals = intervals[keep]
+            if labels is not None:
+                labels = [lab for lab, k in zip(labels, keep) if k]
+
     # When supplied intervals are empty and t_max and t_min are supplied,
     # create one interval from t_min to t_max with the label start_label
     if t_min is not None and t_max is not None and intervals.size == 0:
